@@ -16,6 +16,10 @@ directly) carries the gap structure, the value of `datetime` in a gap, `gap_abov
 `datetime` (code of /repo e1e5204) = `latest()` of the requested time, or `earliest()` of the first
 existing `requested + k min`, walked back by seconds with `earliest()`: `found?`, `minuteLoop`,
 `walkBack`.
+`iter_range` (code of /repo dfe1ade) = filter → merge → map: list lemmas on `filterRanges` /
+`mergeFrom` (`mergeRanges_mem`, `mergeRanges_ordered`, `mergeRanges_adjDiffer`, `mergeRanges_eq_self`),
+the lazy first item (`collect_step`, `collect_acc`, `nextKept_spec`, `absorb_spec`,
+`firstMergedG_eq_head`), `nextChangeTzG_exact`, `datetime_lt_of_naive_lt`, `keepRange_eq`.
 -/
 namespace OH.Proofs.Tz
 open OH.Model OH.Model.Tz
